@@ -50,7 +50,9 @@ def evaluate(camp):
                             bad.append(dict(ctx, violated='best_nets is None although losses were recorded'))
                 elif d['lowest'] is not None:
                     bad.append(dict(ctx, violated='lowest_loss set without any tracked loss', lowest=d['lowest']))
-                if prev is not None and prev['best'] != d['best'] and prev['lowest'] is not None and not d['lowest'] < prev['lowest']:
+                if prev is not None and prev['lowest'] is not None and d['lowest'] is None:
+                    bad.append(dict(ctx, violated='lowest_loss was reset although losses had been recorded', before=prev['lowest']))
+                elif prev is not None and prev['best'] != d['best'] and prev['lowest'] is not None and not d['lowest'] < prev['lowest']:
                     bad.append(dict(ctx, violated='best_nets changed without a strictly lower loss', before=prev['lowest'], after=d['lowest']))
                 if run is not None and run.solver.best_nets is not None and any(a is b for a, b in zip(run.solver.best_nets, run.solver.nets)):
                     bad.append(dict(ctx, violated='best_nets aliases the live networks (not a frozen copy)'))
@@ -65,6 +67,13 @@ def evaluate(camp):
                     bad.append(dict(script=lines, kw=kw, fit_call=call, epoch=ep, violated='best_nets is not a copy of the networks as they were when '
                                     'the loss was computed: its buffer (parameter value at the last forward pass) differs from its parameter',
                                     best_parameter=bw, best_buffer=bseen))
+                    break
+            # ... and of frozen parameters too: changing them later must not reach into the stored best networks
+            for baux, want, call, ep in run.aux_obs:
+                if want is not None and baux != want:
+                    bad.append(dict(script=lines, kw=kw, fit_call=call, epoch=ep, violated='best_nets changed after it was stored: a frozen '
+                                    '(requires_grad=False) parameter of the live networks was modified later and the stored copy followed',
+                                    stored_value=baux, value_when_stored=want))
                     break
     return bad, known
 
